@@ -1452,16 +1452,28 @@ class GroupBy:
 
         group_index = self._result_index[self._labels_argsort]
         if mask is not None:
-            group_index = group_index[[len(arr) > 0 for arr in array_splits[0]]]
+            group_called = np.array([len(arr) > 0 for arr in array_splits[0]], dtype=bool)
         else:
-            group_index = group_index[group_counts > 0]
+            group_called = group_counts > 0
+        group_index = group_index[group_called]
 
         if np.ndim(results_per_value[0][0]) == 0:
             # safe to assume it's a scalar value function
             arrays = map(np.array, results_per_value)
             if transform:
                 self._unify_group_key_chunks(keep_chunked=False)
-                arrays = [arr[self.group_ikey] for arr in arrays]
+                # the results are in sorted-label order and cover the called
+                # groups only: scatter them back to code order, with a trailing
+                # null slot for null keys and groups that were not called
+                called_codes = np.arange(self.ngroups)[self._labels_argsort][
+                    group_called
+                ]
+                broadcast = []
+                for arr in arrays:
+                    full = np.full(self.ngroups + 1, np.nan)
+                    full[called_codes] = arr
+                    broadcast.append(full[self.group_ikey])
+                arrays = broadcast
                 index = (
                     common_index
                     if common_index is not None
